@@ -189,6 +189,7 @@ mutual
     match f with
     | .attr _ ty _ => genScalar ty i c
     | .attrReadOnly _ ty => genScalar ty i c
+    | .attrRW _ _ ty _ => genScalar ty i c
     | .text ty => genScalar ty i c
     | .enumChild _ _ _ names m =>
       if (m || present i c) && names.length > 0 then (.opt (some (pick i (c + 1) names.length)), c + 2)
